@@ -22,6 +22,10 @@ fn main() {
                 replay = Some(args[i + 1].clone());
                 i += 2;
             }
+            "--replay-bytes" => {
+                let target = if args.iter().any(|a| a == "setops") { "setops" } else { "ops" };
+                std::process::exit(ptv::fuzz_entry::replay_bytes(&id, target, &args[i + 1]));
+            }
             x => {
                 eprintln!("unknown argument {x}");
                 std::process::exit(2);
